@@ -175,11 +175,18 @@ PubSend ==
   /\ Step("pub")
   /\ UNCHANGED <<status, cache, map, count, closedF, lk, pi, crange, cur,
                  delivered, tclosed, cached, lo, hi, stopLate>>
-(* pub.sent -> (unlock) -> demuxer write, return; next WriteRtpPacket *)
+(* pub.sent -> (unlock) -> demuxer write, return; the next WriteRtpPacket call: status check,
+   (lock), pub.begin.  sync.Mutex does not hand over: after Unlock either a waiter or the
+   publisher itself (barging) gets the lock next.                                            *)
 PubSent ==
   /\ pc["pub"] = "pub.sent"
   /\ pi' = pi + 1
-  /\ UnlockWith([pc EXCEPT !["pub"] = "start"])
+  /\ IF pi + 1 > NP \/ status # "ok"
+     THEN UnlockWith([pc EXCEPT !["pub"] = "done"])
+     ELSE IF ~FixJoin THEN pc' = [pc EXCEPT !["pub"] = "pub.begin"] /\ lk' = lk
+     ELSE \/ pc' = [pc EXCEPT !["pub"] = "pub.begin"] /\ lk' = "pub"
+          \/ \E w \in {w \in Procs : pc[w] = "lockwait"} :
+                pc' = [pc EXCEPT ![w] = FirstLocked(w), !["pub"] = "lockwait"] /\ lk' = w
   /\ Step("pub")
   /\ UNCHANGED <<status, cache, map, count, q, closedF, disc, gitem, prange, crange, cur,
                  delivered, tclosed, cached, sentAll, lo, hi, stopLate, withheld>>
